@@ -1579,7 +1579,7 @@ impl<'arena> PrettyFormatter<'arena> {
 
     fn term_constructor_argument(&self, body: TermId) -> RcDoc<'arena> {
         match &self.arena.terms[&body] {
-            | Term::Paren(Paren(terms)) => self.with_leading_comments(
+            | Term::Paren(Paren(terms)) => self.with_constructor_argument_comments(
                 body.into(),
                 self.delimited(
                     Some(body.into()),
@@ -1593,13 +1593,30 @@ impl<'arena> PrettyFormatter<'arena> {
         }
     }
 
+    /// Comments leading a constructor argument follow the constructor name directly.
+    /// `-` continues an identifier, so `+K` must be separated from a `--` comment or
+    /// the name would absorb it.
+    fn with_constructor_argument_comments(
+        &self, entity: EntityId, document: RcDoc<'arena>,
+    ) -> RcDoc<'arena> {
+        let comments = self.arena.trivia.leading_comments(entity);
+        if comments.is_empty() {
+            document
+        } else {
+            RcDoc::text(" ").append(self.with_comments(comments, document))
+        }
+    }
+
     fn pattern_constructor_argument(&self, body: PatId) -> RcDoc<'arena> {
         match &self.arena.pats[&body] {
             | Pattern::Alias(_) | Pattern::Manifest(_) => self.annotated_pattern(body),
             | Pattern::Paren(Paren(patterns)) => match patterns.as_slice() {
                 | [inner] if self.should_elide_parentheses(body.into(), (*inner).into()) => self
-                    .with_leading_comments(body.into(), self.pattern_constructor_argument(*inner)),
-                | _ => self.with_leading_comments(
+                    .with_constructor_argument_comments(
+                        body.into(),
+                        self.pattern_constructor_argument(*inner),
+                    ),
+                | _ => self.with_constructor_argument_comments(
                     body.into(),
                     self.delimited(
                         Some(body.into()),
